@@ -756,6 +756,18 @@ const TRIVIA_NEWLINE: &[(&str, &[&str])] = &[
     ("mixed-newline", &[" // c\n\t/* d */ \n"]),
 ];
 
+/// the kinds of the invocation sweep (one representative each)
+const SWEEP_TRIVIA: &[(&str, &str)] = &[
+    ("space", " "),
+    ("tab", "\t"),
+    ("block-comment", "/* c */"),
+    ("line-comment", "// c\n"),
+    ("newline", "\n"),
+    ("crlf", "\r\n"),
+    ("splice", "\\\n"),
+    ("multi-line-comment", "/* a\n b */"),
+];
+
 fn pick_trivia(rng: &mut Rng, b: &Boundary) -> (String, String) {
     let use_nl = b.newline_ok && rng.chance(1, 2);
     let table = if use_nl { TRIVIA_NEWLINE } else { TRIVIA_INLINE };
@@ -1268,7 +1280,7 @@ const OWN_FAMILIES: &[&str] = &[
     "nt_redef_across_files", "nt_redef_in_include", "nt_overload_across_files", "nt_same_file",
     "lt_no_final_newline", "lt_include_last_line", "lt_empty_files", "lt_error_at_eof", "lt_crlf", "lt_tabs_utf8", "lt_splice",
     "lt_not_whitespace", "lt_comment_ends_file", "lt_directive_trivia", "lt_angle_include", "lt_tokens", "lt_ok_shapes",
-    "lt_defined_forms", "lt_directive_shapes", "lt_macro_shapes", "lt_cmdline_defines",
+    "lt_defined_forms", "lt_directive_shapes", "lt_macro_shapes", "lt_cmdline_defines", "lt_higher_order",
 ];
 
 /// one rejected program per diagnostic that C07's families (which report only the first of their offenders) rarely
@@ -1636,6 +1648,34 @@ fn own_program(family: &str, rng: &mut Rng) -> Option<OwnProg> {
                 _ => format!("#define E_{0}\n#define S_{0}(x) x\nint f() {{ return S_{0}(E_{0}) 1 + S_{0}() 2 + S_{0}( ) 3; }}\n", n),
             };
             one(format!("{}{}", head, src), vec![])
+        }
+        "lt_higher_order" => {
+            // higher-order macro programs: the NAME of a function-like macro is passed as an argument and is invoked by
+            // the text that follows the outer invocation (`SELECT(INC)(b)`), by the replacement list (`APPLY(INC, b)`),
+            // through several levels, nested, through an object-like alias; some already written over several lines.
+            // All accepted: the invocation sweep of `run_source` puts every kind of trivia at every boundary inside.
+            let defs = format!(
+                "#define SELECT_{0}(f) f\n#define SELECT2_{0}(f) SELECT_{0}(f)\n#define PICK_{0}(a, f) f\n#define FIRST_{0}(f, a) f\n#define INC_{0}(v) ((v)+1)\n#define ADD_{0}(a, b) ((a)+(b))\n#define APPLY_{0}(f, x) f(x)\n#define TWICE_{0}(f, x) f(f(x))\n#define NAME_{0} INC_{0}\n#define WRAP_{0}(f) (f)\n",
+                n
+            );
+            let exprs: Vec<String> = match rng.below(10) {
+                0 => vec![format!("SELECT_{0}(INC_{0})(b)", n)],
+                1 => vec![format!("SELECT2_{0}(INC_{0})(b)", n), format!("SELECT_{0}(SELECT2_{0})(INC_{0})(b)", n)],
+                2 => vec![format!("PICK_{0}(1, INC_{0})(b)", n), format!("FIRST_{0}(INC_{0}, 1)(b)", n)],
+                3 => vec![format!("SELECT_{0}(SELECT_{0}(INC_{0}))(b)", n), format!("SELECT_{0}(INC_{0})(SELECT_{0}(INC_{0})(b))", n)],
+                4 => vec![format!("APPLY_{0}(INC_{0}, b)", n), format!("TWICE_{0}(INC_{0}, b)", n), format!("APPLY_{0}(SELECT_{0}(INC_{0}), b)", n)],
+                5 => vec![format!("NAME_{0}(b)", n), format!("SELECT_{0}(NAME_{0})(b)", n), format!("PICK_{0}(b, NAME_{0})(b)", n)],
+                6 => vec![format!("SELECT_{0}(ADD_{0})(b, 2)", n), format!("PICK_{0}((1, 2), ADD_{0})(SELECT_{0}(INC_{0})(b), 2)", n)],
+                7 => vec![format!("SELECT_{0}(INC_{0}\n)(b)", n), format!("SELECT_{0}(INC_{0} // name\n    )(b)", n), format!("SELECT_{0}(\n    INC_{0}\n)\n(\n    b\n)", n)],
+                8 => vec![format!("SELECT_{0} ( INC_{0} ) ( b )", n), format!("SELECT_{0}/* a */(/* b */INC_{0}/* c */)/* d */(/* e */b/* f */)", n), format!("PICK_{0}(1 ,\\\n INC_{0}\\\n)(b)", n)],
+                _ => vec![format!("SELECT_{0}(b)", n), format!("WRAP_{0}(INC_{0})(b)", n), format!("SELECT_{0}(INC_{0})(INC_{0}(b))", n), format!("SELECT_{0}(SELECT_{0})", n) + &format!(" + SELECT2_{0}(INC_{0})(b)", n)],
+            };
+            let mut body = String::new();
+            for (i, e) in exprs.iter().enumerate() {
+                body.push_str(&format!("    int r{} = {};\n", i, e));
+            }
+            let sum = (0..exprs.len()).map(|i| format!("r{}", i)).collect::<Vec<_>>().join(" + ");
+            one(format!("{}{}int f(int b)\n{{\n{}    return {};\n}}\n", head, defs, body, sum), vec![])
         }
         "lt_cmdline_defines" => {
             // CompileArgs::defines: each define is loaded as a file `<define>` holding `NAME VALUE` in front of the entry
@@ -2167,6 +2207,36 @@ fn run_source(src: &Source, tgt: Tgt, rng: &mut Rng, out: &mut Out, hist: &mut H
             };
             let r = run_meta_files(&prefix, files, fi, &edits, &tag, &compile_fn, &base, lines_mode, &ctx_of);
             emit(out, hist, r);
+        }
+    }
+    // the invocation sweep: for the macro-shape families, EVERY boundary inside a macro invocation (between the name and
+    // `(`, after `(`, around each comma, before `)`) and the few boundaries behind it (the text a higher-order result
+    // goes on to invoke), each with every kind of trivia on its own
+    if src.tag.starts_with("own:lt_higher_order") || src.tag.starts_with("own:lt_macro_shapes") {
+        for fi in ndefs..files.len() {
+            let text = &files[fi].1;
+            let inf = &info[fi];
+            let flagged: Vec<bool> = inf.bounds.iter().map(|b| b.ctx.contains("macro-args") || b.ctx.contains("macro-call-gap")).collect();
+            let ctx_of = |e: &Edits| describe_edits(text, e, &macros);
+            for (bi, b) in inf.bounds.iter().enumerate() {
+                if !(bi.saturating_sub(4)..=bi).any(|j| flagged[j]) || b.ctx.contains(" dir:") {
+                    continue;
+                }
+                for (kind, t) in SWEEP_TRIVIA {
+                    if !b.newline_ok && trivia_class(t) == "line-break" {
+                        continue;
+                    }
+                    let mut t = t.to_string();
+                    if b.after_slash && t.starts_with('/') {
+                        t.insert(0, ' ');
+                    }
+                    hist.add(&format!("sweep={} {}", kind, if flagged[bi] { b.ctx.rsplit(' ').next().unwrap_or("") } else { "behind-invocation" }));
+                    let edits: Edits = vec![(b.off, t)];
+                    let tag = format!("{},invocation-sweep:{},trivia:1", src.tag, kind);
+                    let r = run_meta_files(&prefix, files, fi, &edits, &tag, &compile_fn, &base, None, &ctx_of);
+                    emit(out, hist, r);
+                }
+            }
         }
     }
     // programs with command-line defines get more random edits: aimed ones that land in a define are dropped
@@ -2946,7 +3016,7 @@ pub fn run(args: &Args, out: &mut Out) {
             // the single-program families have no variation beyond their header lines
             let seeds = if family.starts_with("ty_single#") || family.starts_with("lx_single#") {
                 (seeds_per_family / 6).max(1)
-            } else if ["lt_cmdline_defines", "lt_defined_forms", "lt_directive_shapes"].contains(&family.as_str()) {
+            } else if ["lt_cmdline_defines", "lt_defined_forms", "lt_directive_shapes", "lt_higher_order"].contains(&family.as_str()) {
                 // a dozen or more hand-written variants each
                 seeds_per_family * 3
             } else {
